@@ -1053,3 +1053,15 @@ package core
 //@   loop 1 invariant 0 <= iter && iter <= len(arr) && len(result) == iter && result != nil
 //@   loop 1 invariant forall j :: 0 <= j && j < len(arr) ==> arr[j] == atloop(arr[j])
 //@   loop 1 invariant iter > 0 ==> result[iter-1] == fn(core.resolvePath, arr[iter-1], p, fn(syntax.TypeLookup.GetArray, lookup, t, -1), dest, lookup).0
+
+// ---------------------------------------------------------------- C03 / C01 one fork per element or key: copy-on-write of shared fork-id parts
+// The undetermined part of a fork id is shared (by pointer) by the sibling forks cloned from
+// one outer expansion.  While forks after this one exist (len(node.forks)-1 > index), fixing
+// this fork's index or key must not edit a part that existed before the call: it edits a copy.
+//@ func core.Fork.expandForkFromObj property C03 C01
+//@   requires self != nil && self.node != nil && self.node.top != nil && part != nil && split != nil && !isnil(split.Source) && 0 <= i && i < len(self.forkId) && self.forkId[i] == part
+//@   ensures @cow old(len(self.node.forks)) - 1 > old(self.index) ==> forall p *core.ForkSourcePart :: old(alloc(p)) ==> p.Id == old(p.Id)
+//@   loop 1 invariant forall p *core.ForkSourcePart :: old(alloc(p)) ==> p.Id == old(p.Id)
+//@   loop 2 invariant forall p *core.ForkSourcePart :: old(alloc(p)) ==> p.Id == old(p.Id)
+//@   loop 3 invariant forall p *core.ForkSourcePart :: old(alloc(p)) ==> p.Id == old(p.Id)
+//@   loop 4 invariant forall p *core.ForkSourcePart :: old(alloc(p)) ==> p.Id == old(p.Id)
